@@ -37,3 +37,31 @@ func TestConcAdhoc(t *testing.T) {
 		fmt.Printf("--- run %d yields=%d\nOUT: %s\nERR: %s\nPANIC: %s\n", i, bytecode.VerifYields.Load(), r.Out, r.Err, r.Panic)
 	}
 }
+
+// TestConcRaceKeys pins the keying of race-detector blocks (formats taken from real reports).
+func TestConcRaceKeys(t *testing.T) {
+	const pre = "  github.com/tucats/ego/internal/"
+
+	cases := []struct{ want, text string }{
+		{"race:router.(*Route).NeedsLock~router.(*Route).Unlock", "WARNING: DATA RACE\nWrite at 0x00c0 by goroutine 165:\n" +
+			pre + "router.(*Route).NeedsLock()\n      x/router.go:435 +0x73c\n" + pre + "server/services.addToCache()\n      x.go:1 +0x1\n" + pre + "router.(*Router).ServeHTTP()\n      x.go:1 +0x1\n" + pre + "verifh/srvfix.(*Fixture).Do()\n      x.go:1 +0x1\n" +
+			"\nPrevious read at 0x00c0 by goroutine 162:\n" + pre + "router.(*Route).Unlock()\n      x.go:1 +0x1\n" + pre + "router.(*Router).ServeHTTP.deferwrap2()\n      x.go:1 +0x1\n  runtime.deferreturn()\n      runtime/panic.go:668 +0x5d\n" + pre + "verifh/srvfix.(*Fixture).Do()\n      x.go:1 +0x1\n" +
+			"\nGoroutine 165 (running) created at:\n" + pre + "verifh/conc.TestC42Worker()\n      x.go:1 +0x1\n"},
+		{"harness-race:language/bytecode.loadByteCode~verifh/<-verifh/egorun.Apply", "WARNING: DATA RACE\nWrite at 0x01 by goroutine 9:\n" +
+			pre + "verifh/egorun.Apply()\n      x.go:1 +0x1\n" + pre + "verifh/egorun.Run()\n      x.go:1 +0x1\n" +
+			"\nPrevious read at 0x01 by goroutine 77:\n" + pre + "language/bytecode.loadByteCode()\n      x.go:1 +0x1\n" + pre + "language/bytecode.(*Context).RunFromAddress()\n      x.go:1 +0x1\n" + pre + "language/bytecode.(*Context).Run()\n      x.go:1 +0x1\n" + pre + "language/bytecode.GoRoutine()\n      x.go:1 +0x1\n"},
+		{"harness-race:cli/settings.Get~verifh/<-cli/settings.SetDefault", "WARNING: DATA RACE\nWrite at 0x01 by goroutine 9:\n" +
+			pre + "cli/settings.SetDefault()\n      x.go:1 +0x1\n" + pre + "verifh/egorun.Apply()\n      x.go:1 +0x1\n" +
+			"\nPrevious read at 0x01 by goroutine 77:\n" + pre + "cli/settings.Get()\n      x.go:1 +0x1\n" + pre + "language/bytecode.(*Context).Run()\n      x.go:1 +0x1\n"},
+		{"race:language/bytecode.(*Context).callFramePop~language/bytecode.GoRoutine", "WARNING: DATA RACE\nRead at 0x01 by goroutine 1185:\n" +
+			pre + "language/bytecode.GoRoutine()\n      x.go:139 +0x111\n" + pre + "language/bytecode.goByteCode.gowrap1()\n      x.go:89 +0x70\n" +
+			"\nPrevious write at 0x01 by goroutine 9:\n" + pre + "language/bytecode.(*Context).callFramePop()\n      x.go:1 +0x1\n" + pre + "language/bytecode.returnByteCode()\n      x.go:1 +0x1\n" + pre + "language/bytecode.(*Context).RunFromAddress()\n      x.go:1 +0x1\n" + pre + "language/bytecode.(*Context).Run()\n      x.go:1 +0x1\n" + pre + "verifh/egorun.runLocked()\n      x.go:1 +0x1\n"},
+	}
+
+	for _, c := range cases {
+		got := ParseRaceBlocks("==================\n" + c.text + "==================\n")
+		if len(got) != 1 || got[0].Key != c.want {
+			t.Errorf("key = %v, want %s", got, c.want)
+		}
+	}
+}
